@@ -1,5 +1,6 @@
 import Rml.Model.Time
 import Driver.Util
+import Driver.AmfText
 open Rml
 
 namespace Driver
@@ -22,6 +23,19 @@ def step (st : St) (line : String) : St × String :=
     match a.toNat?, b.toNat? with
     | some a, some b => if a < Time.M ∧ b < Time.M then (st, timeOp a b) else (st, "bad-op")
     | _, _ => (st, "bad-op")
+  | ["amf.dec", h] => (st, amfDec h)
+  | ["utf8", h] =>
+    match parseBytes h with
+    | some b => (st, showB (Rml.Utf8.valid b))
+    | none => (st, "bad-op")
+  | ["?amf.enc", v, "=>", r] =>
+    match parseVals v with
+    | some vs => (st, checkEnc vs r)
+    | none => (st, "bad-op")
+  | ["?amf.enc", v, "=>", r, h] =>
+    match parseVals v with
+    | some vs => (st, checkEnc vs (r ++ " " ++ h))
+    | none => (st, "bad-op")
   | tok :: _ => if tok.startsWith "!" then (st, "!") else (st, "bad-op")
   | _ => (st, "bad-op")
 
